@@ -151,6 +151,141 @@ def _locals_of(stmts: T.List[ast.stmt]) -> T.Set[str]:
     return {n.id for x in stmts for n in ast.walk(x) if isinstance(n, ast.Name) and isinstance(n.ctx, (ast.Store, ast.Del))}
 
 
+def _own_nodes(stmts: T.List[ast.stmt]) -> T.Iterator[ast.AST]:
+    """Nodes of a block that belong to the function itself (bodies of nested defs / lambdas are somebody else's)."""
+    todo: T.List[ast.AST] = list(stmts)
+    while todo:
+        n = todo.pop()
+        yield n
+        if isinstance(n, (ast.FunctionDef, ast.AsyncFunctionDef, ast.Lambda, ast.ClassDef)):
+            continue
+        todo.extend(ast.iter_child_nodes(n))
+
+
+def _is_yield_stmt(s: ast.AST) -> bool:
+    return isinstance(s, ast.Expr) and isinstance(s.value, ast.Yield)
+
+
+def _has_yield(stmts: T.List[ast.stmt]) -> bool:
+    return any(isinstance(n, (ast.Yield, ast.YieldFrom)) for n in _own_nodes(stmts))
+
+
+def _yields_in_tail(stmts: T.List[ast.stmt], tail: bool) -> bool:
+    """Is every `yield` statement the last thing an iteration of its nearest enclosing loop does?  (then resuming the
+    producer after the yield and `continue` of that loop are the same jump)"""
+    for i, s in enumerate(stmts):
+        last = i == len(stmts) - 1
+        if _is_yield_stmt(s):
+            if not (tail and last):
+                return False
+        elif isinstance(s, (ast.For, ast.While)):
+            if not _yields_in_tail(s.body, True) or _has_yield(s.orelse):
+                return False
+        elif isinstance(s, ast.If):
+            if not _yields_in_tail(s.body, tail and last) or not _yields_in_tail(s.orelse, tail and last):
+                return False
+        elif _has_yield([s]):
+            return False
+    return True
+
+
+def _loop_jumps(body: T.List[ast.stmt]) -> T.Set[str]:
+    """`break` / `continue` statements of a loop body that address that loop itself."""
+    out: T.Set[str] = set()
+
+    def scan(stmts: T.List[ast.stmt]) -> None:
+        for s in stmts:
+            if isinstance(s, ast.Break):
+                out.add('break')
+            elif isinstance(s, ast.Continue):
+                out.add('continue')
+            elif isinstance(s, (ast.FunctionDef, ast.AsyncFunctionDef, ast.ClassDef)):
+                continue
+            elif isinstance(s, (ast.For, ast.AsyncFor, ast.While)):
+                scan(s.orelse)          # the body's jumps address the inner loop, the else clause's the outer one
+            else:
+                for field in ('body', 'orelse', 'finalbody'):
+                    sub = getattr(s, field, None)
+                    if isinstance(sub, list) and sub and isinstance(sub[0], ast.stmt):
+                        scan(sub)
+                for hd in getattr(s, 'handlers', []) or []:
+                    scan(hd.body)
+                for cs in getattr(s, 'cases', []) or []:
+                    scan(cs.body)
+    scan(body)
+    return out
+
+
+def fuse_generator(loop: ast.For, h: _Helper) -> T.Optional[T.List[ast.stmt]]:
+    """D7/E1, lazy producer/consumer pair:  `for X in self._gen(a...): BODY`  where `_gen` is a private generator of the same
+    class (or a closure / private module function).  A generator runs in lock step with the `for` that drives it, so the pair
+    means the producer's statements with every `yield E` replaced by `X = E; BODY`.  Read that way only when the
+    correspondence is exact:
+      * every yield is a statement `yield E` (its value unused), no `yield from`, no `return` in the producer;
+      * no yield under try/with in the producer (an exception of BODY never passes through the producer's handlers, and a
+        dropped generator runs its finally blocks at another time);
+      * BODY does not `break` the loop; it may `continue` only if every yield is the last act of an iteration of a producer
+        loop (resuming after the yield == continuing that loop); the loop has no else clause;
+      * arguments are plain names / attribute chains / constants that neither BODY nor the loop target rebinds, and the
+        producer does not rebind its parameters (so binding at the call == reading at the use).
+    Anything else is left as it is (the reading rule then says what it cannot read)."""
+    b = _body_of(h.fn)
+    own = list(_own_nodes(b))
+    yields = [n for n in own if isinstance(n, (ast.Yield, ast.YieldFrom))]
+    if not yields or any(isinstance(n, ast.YieldFrom) for n in yields):
+        return None
+    if len([n for n in own if _is_yield_stmt(n)]) != len(yields):
+        return None                                     # a yield whose value is used (send protocol)
+    if any(isinstance(n, (ast.Return, ast.Await, ast.AsyncFor, ast.AsyncWith)) for n in own) or isinstance(h.fn, ast.AsyncFunctionDef):
+        return None
+    for n in own:
+        if isinstance(n, (ast.Try, ast.With)) and _has_yield([T.cast(ast.stmt, n)]):
+            return None
+    if loop.orelse:
+        return None
+    jumps = _loop_jumps(loop.body)
+    if 'break' in jumps or ('continue' in jumps and not _yields_in_tail(b, False)):
+        return None
+    locs = _locals_of(b)
+    if locs & set(h.mapping):
+        return None
+    stored = {n.id for x in [loop.target] + list(loop.body) for n in ast.walk(x) if isinstance(n, ast.Name) and isinstance(n.ctx, (ast.Store, ast.Del))}
+    stored_attrs = {n.attr for x in loop.body for n in ast.walk(x) if isinstance(n, ast.Attribute) and isinstance(n.ctx, (ast.Store, ast.Del))}
+    params = [x.arg for x in h.fn.args.posonlyargs + h.fn.args.args + h.fn.args.kwonlyargs]
+    for p, v in h.mapping.items():
+        if isinstance(v, ast.Constant):
+            continue
+        c = attr_chain(v)
+        if c is None:
+            return None
+        if p == params[0] and c in ('self', 'cls') and 'staticmethod' not in _decorators(h.fn):
+            continue
+        parts = c.split('.')
+        if parts[0] in stored or any(a in stored_attrs for a in parts[1:]):
+            return None
+    tag = next(_uid)
+    rename = {n: f'{n}__{h.fn.name.strip("_")}{tag}' for n in locs}
+
+    class Y(ast.NodeTransformer):
+        def visit_Expr(self, n: ast.Expr) -> T.Any:
+            if not _is_yield_stmt(n):
+                return n
+            val = T.cast(ast.Yield, n.value).value or ast.Constant(value=None)
+            bind = ast.copy_location(ast.Assign(targets=[copy.deepcopy(loop.target)], value=val, lineno=n.lineno), n)
+            return [bind] + [copy.deepcopy(x) for x in loop.body]
+
+        def visit_FunctionDef(self, n: ast.FunctionDef) -> ast.AST:
+            return n
+
+        def visit_Lambda(self, n: ast.Lambda) -> ast.AST:
+            return n
+    out: T.List[ast.stmt] = []
+    for x in b:
+        r = Y().visit(_subst(x, h.mapping, rename))
+        out.extend(r if isinstance(r, list) else [r])
+    return out
+
+
 def inline_helpers(mod: Module, cls: str, fn: T.Any, depth: int = 3) -> T.Any:
     meths = mod.methods(cls) if cls and mod.has_cls(cls) else {}
     cur = copy.deepcopy(fn)
@@ -193,6 +328,13 @@ def inline_helpers(mod: Module, cls: str, fn: T.Any, depth: int = 3) -> T.Any:
                         setattr(st, field, splice(sub, field == 'body' and isinstance(st, (ast.For, ast.AsyncFor, ast.While))))
                 for hd in getattr(st, 'handlers', []) or []:
                     hd.body = splice(hd.body)
+                if isinstance(st, ast.For) and isinstance(st.iter, ast.Call):
+                    hg = _resolve_helper(meths, fn.name, st.iter, closures)
+                    fused = fuse_generator(st, hg) if hg is not None else None
+                    if fused is not None:
+                        out.extend(fused)       # lazy producer/consumer pair read as one loop
+                        changed = True
+                        continue
                 if isinstance(st, ast.Return) and st.value is not None:
                     hr = _resolve_helper(meths, fn.name, st.value, closures)
                     if hr is not None:
